@@ -26,10 +26,16 @@ import (
 	"time"
 )
 
-const (
-	VerifRoot = "/verif"
-	RepoRoot  = "/repo"
-)
+const VerifRoot = "/verif"
+
+// RepoRoot is the tree under verification: /repo, unless VERIF_REPO names a scratch worktree
+// (used only by tools/seedtest.sh to try a seeded change without touching /repo).
+var RepoRoot = func() string {
+	if r := os.Getenv("VERIF_REPO"); r != "" {
+		return r
+	}
+	return "/repo"
+}()
 
 // Ctx is the state of one check run.
 type Ctx struct {
@@ -92,6 +98,9 @@ func NewCtx(prop, tier string) *Ctx {
 	os.RemoveAll(work)
 	must(os.MkdirAll(work, 0o755))
 	build := filepath.Join(VerifRoot, ".build", prop)
+	if b := os.Getenv("VERIF_BUILD"); b != "" {
+		build = b
+	}
 	must(os.MkdirAll(build, 0o755))
 	c := &Ctx{Prop: prop, Tier: tier, Seed: seed, Work: work, Build: build, Start: time.Now(), built: map[string]string{}}
 	c.Ev = Evidence{PropertyID: prop, Tier: tier, Seed: seed, Level: "model_checking", Coverage: map[string]any{}, Assumptions: []string{"verdicts come only from re-executed real-code behaviour; model-only counterexamples and infrastructure failures exit 2"}}
@@ -250,8 +259,12 @@ func (c *Ctx) Finish() int {
 		c.Ev.Coverage["infrastructure_errors"] = c.infra
 	}
 	b, _ := json.MarshalIndent(c.Ev, "", " ")
-	os.MkdirAll(filepath.Join(VerifRoot, "evidence"), 0o755)
-	os.WriteFile(filepath.Join(VerifRoot, "evidence", c.Prop+".json"), b, 0o644)
+	evdir := filepath.Join(VerifRoot, "evidence")
+	if os.Getenv("VERIF_REPO") != "" {
+		evdir = filepath.Join(VerifRoot, ".work", "evidence-scratch") // a scratch worktree was checked, not /repo
+	}
+	os.MkdirAll(evdir, 0o755)
+	os.WriteFile(filepath.Join(evdir, c.Prop+".json"), b, 0o644)
 	if unknown > 0 {
 		return 1
 	}
@@ -463,7 +476,9 @@ func (c *Ctx) TLC(o TLCOpts) *TLCResult {
 	if o.Heap == "" {
 		o.Heap = "4g"
 	}
-	args := []string{"-XX:+UseParallelGC", "-Xmx" + o.Heap, "-Xss256m"}
+	jtmp := filepath.Join(dir, "jtmp") // TLC/SANY scratch files stay inside the work directory
+	os.MkdirAll(jtmp, 0o755)
+	args := []string{"-XX:+UseParallelGC", "-Xmx" + o.Heap, "-Xss256m", "-Djava.io.tmpdir=" + jtmp}
 	if o.DFS {
 		args = append(args, "-Dtlc2.tool.queue.IStateQueue=StateDeque")
 	}
